@@ -21,3 +21,11 @@
 (define-fun ocAny ((b Str) (v Val) (it Bool)) Str (ite (or (isMapC v) (isSliceC v)) (scat b (ocContainer v)) (ocPrim b v it)))
 ; the index key of a value: what OrderedCode(prefix, v) appends
 (assert (forall ((v Val)) (! (= (keyOf v) (ite (or (isMapC v) (isSliceC v)) (ocContainer v) (ite (= v vnil) sempty (ocode (encVal v))))) :pattern ((keyOf v)))))
+; Encoding of a generic slice (internal/code.go orderedCodeSlice): the codes of the elements, each with its type tag,
+; are accumulated; slEnc(s, i) is the accumulated encoding of the first i elements (opaque; "reveal" unfolds a step)
+(declare-fun slEnc ((Array Ref Val) Slice (_ BitVec 64)) Str)
+; statefun: slEnc C_interfaceBB
+; statefun: slEnc!def C_interfaceBB
+(define-fun slEnc!def ((cib (Array Ref Val)) (s Slice) (i (_ BitVec 64))) Str
+  (ite (bvsle i #x0000000000000000) sempty
+       (ocAny (slEnc cib s (bvsub i #x0000000000000001)) (select cib (selemaddr s (bvsub i #x0000000000000001))) true)))
